@@ -17,7 +17,7 @@ from harness.core import pmap, MachineryError
 
 LAYOUTS_Q = [(1, 0, 3, 4), (2, 0, 2, 4), (3, 0, 2, 3), (1, 1, 2, 4), (2, 1, 2, 3), (1, 2, 2, 3), (2, 2, 2, 3), (3, 2, 2, 2)]   # (NS, NC, V, N)
 LAYOUTS_T = [(1, 0, 3, 6), (2, 0, 3, 4), (3, 0, 2, 4), (1, 1, 3, 4), (2, 1, 2, 5), (1, 2, 2, 5), (2, 2, 2, 4), (3, 2, 2, 3), (2, 0, 2, 6)]
-LABELS = [["t", "b", "m"], [7, 3, 5], ["x", "Y", "k"], ["q", "a", "z"], [2.5, 1.5, 0.5]]
+LABELS = [["t", "b", "m", "c"], [7, 3, 5, 1], ["x", "Y", "k", "A"], ["q", "a", "z", "f"], [2.5, 1.5, 0.5, 9.5]]
 BIG = float(2 ** 26)
 
 
